@@ -353,7 +353,7 @@ pub fn run_sem(run: &Run) {
     });
     run.assume("reference model: truth tables + brute force over all 2^n / 3^n interpretations (oracle.rs)");
     run.assume("inputs are limited to the named families (n <= 5 statements); larger ADFs are out of the bound");
-    let sources = standard_sources(run, prop == "C01");
+    let sources = standard_sources(run, true);
     let mut max_steps = 0;
     for src in sources {
         if run.violations_so_far() > 500 {
@@ -384,6 +384,14 @@ pub fn run_sem(run: &Run) {
             max_steps = max_steps.max(st.max_steps);
         }
     }
+    // CLI clause: the flags that print this semantics, in every library mode and sorting
+    let flagsets: Vec<u32> = match prop.as_str() {
+        "C01" => vec![1 << 0],
+        "C02" => vec![1 << 1, 0b11],
+        "C03" => vec![1 << 2, 1 << 3, 1 << 4, 1 << 5],
+        _ => vec![1 << 6, 1 << 7],
+    };
+    crate::c15::cli_slice(run, &flagsets, &[None]);
     run.extra("max_loop_steps_observed", json!(max_steps));
     run.extra("loop_step_budget", json!(STEP_BUDGET));
     run.extra("states_are", json!("distinct ADF inputs built on the real back-ends"));
@@ -391,6 +399,9 @@ pub fn run_sem(run: &Run) {
 }
 
 pub fn replay_sem(prop: &str, case: &Value) -> Found {
+    if case["type"] == "cli" {
+        return crate::c15::replay(case);
+    }
     let text = case["text"].as_str().unwrap_or_default().to_string();
     let tts: Vec<TT> = case["tts"]
         .as_array()
